@@ -392,7 +392,19 @@ fn est_strategy() -> impl Strategy<Value = EstCase> {
         prev,
         prop_oneof![8 => (1_500_000_000_000i64..1_900_000_000_000).prop_map(Some), 1 => Just(None)],
         prop_oneof![4 => Just(true), 1 => Just(false)],
-        prop_oneof![1 => Just(Vec::new()), 3 => vec(hist.clone(), 0..=8), 3 => vec(hist, 9..=50)],
+        prop_oneof![
+            1 => Just(Vec::new()),
+            3 => vec(hist.clone(), 0..=8),
+            3 => vec(hist.clone(), 9..=50),
+            // windows made of one repeated duration (incl. all-zero windows) under the queried key
+            1 => (vec(hist, 1..=14), prop_oneof![2 => Just(0u32), 1 => 0u32..=60_000]).prop_map(|(mut v, d)| {
+                for h in v.iter_mut() {
+                    h.same_key = true;
+                    h.duration_ms = d;
+                }
+                v
+            }),
+        ],
     )
         .prop_map(|(cuts, prev, upload_ms, with_stats, history)| EstCase { cuts, prev, upload_ms, with_stats, history })
 }
@@ -464,11 +476,13 @@ pub fn run(ctx: &Ctx, rep: &mut Report) {
                 .class(!matches!(num, Some(1..=55)), "sequence-outside-domain")
                 .class(num == Some(55), "after-end-chunk")
                 .class(c.history.iter().any(|h| h.attempts > 1), "retries-in-history")
+                .class(!c.history.is_empty() && c.history.iter().all(|h| h.duration_ms == 0), "all-zero-durations")
         },
         check_estimate,
     );
     rep.require_class("estimate", "window-overflows", 50);
     rep.require_class("estimate", "after-end-chunk", 50);
+    rep.require_class("estimate", "all-zero-durations", 50);
 }
 
 pub fn replay(sub: &str, case: &Value) -> Check {
